@@ -103,6 +103,26 @@ func c01(r *core.Report, p *core.Prog, thorough bool) {
 			r.Pass("C01.1", key+":tooling", p.Pos(w.Instr.Pos()), "function is not reachable from the miner or sharder binary (benchmark/tooling)")
 			continue
 		}
+		// a helper extracted from the transfer primitive: does exactly one checked debit/credit of
+		// its arguments and is called from nowhere but the primitive
+		if h := core.EnclosingNamed(w.Fn); h.Pkg != nil && h.Pkg.Pkg.Path() == pkgChain {
+			if kind, _, _ := c01BalanceHelper(p, h, bal); kind != "" {
+				private := true
+				nCalls := 0
+				for _, caller := range mod {
+					for range core.CallsIn(caller, true, func(cc *ssa.CallCommon) bool { return cc.StaticCallee() == h }) {
+						nCalls++
+						if core.EnclosingNamed(caller).String() != fnTransfer {
+							private = false
+						}
+					}
+				}
+				if private && nCalls > 0 {
+					r.Pass("C01.1", key+":primitive-helper", p.Pos(w.Instr.Pos()), "checked "+kind+" helper called only by the transfer primitive")
+					continue
+				}
+			}
+		}
 		r.Fail("C01.1", key, p.Pos(w.Instr.Pos()), "store to State.Balance of an existing object outside the transfer primitive")
 	}
 	r.Floor("C01.1", "State.Balance writers", nW, 4)
@@ -298,30 +318,94 @@ func c01Transfer(r *core.Report, p *core.Prog, ta *ssa.Function, rule string) {
 		return
 	}
 	c01CanonicalIDs(r, p, ta, rule)
-	minus := core.CallsIn(ta, false, core.NameIs(pkgCurr+".MinusCoin"))
-	add := core.CallsIn(ta, false, core.NameIs(pkgCurr+".AddCoin"))
-	if !r.Check(len(minus) == 1 && len(add) == 1, rule, "transferAmount:one-debit-one-credit", p.Pos(ta.Pos()), fmt.Sprintf("MinusCoin=%d AddCoin=%d", len(minus), len(add))) {
+	// the debit and the credit: a checked MinusCoin / AddCoin on a loaded state's Balance whose
+	// result is stored back, written inline or in a helper of the package that does exactly that
+	type balOp struct {
+		at   *ssa.Call // instruction in transferAmount
+		kind string
+		obj  ssa.Value // state object (in transferAmount)
+		amt  ssa.Value
+		how  string
+	}
+	bal := p.Field(pkgState, "State", "Balance")
+	var ops []balOp
+	stores := core.FieldWrites([]*ssa.Function{ta}, bal)
+	usedStore := map[ssa.Instruction]bool{}
+	for _, b := range ta.Blocks {
+		for _, in := range b.Instrs {
+			c, ok := in.(*ssa.Call)
+			if !ok {
+				continue
+			}
+			switch core.CalleeName(c.Common()) {
+			case pkgCurr + ".MinusCoin", pkgCurr + ".AddCoin":
+				kind := "debit"
+				if core.CalleeName(c.Common()) == pkgCurr+".AddCoin" {
+					kind = "credit"
+				}
+				obj, path := core.BaseObject(c.Call.Args[0])
+				if path != ".Balance" {
+					r.Fail(rule, "transferAmount:operands:"+kind, p.Pos(c.Pos()), "checked arithmetic on something that is not a loaded state's Balance: "+describe(c.Call.Args[0]))
+					continue
+				}
+				// its result is what is stored into that object's Balance
+				okStore := false
+				for _, st := range stores {
+					cc, idx := core.CallOf(st.Val)
+					so, _ := core.BaseObject(st.Addr)
+					if st.Kind == "store" && cc == c && idx == 0 && so == obj {
+						okStore = true
+						usedStore[st.Instr] = true
+					}
+				}
+				r.Check(okStore, rule, "transferAmount:stores:"+kind, p.Pos(c.Pos()), "the checked result is stored into the same state's Balance")
+				ops = append(ops, balOp{c, kind, obj, c.Call.Args[1], "inline"})
+			default:
+				h := c.Call.StaticCallee()
+				if h == nil || h.Pkg == nil || h.Pkg.Pkg.Path() != pkgChain || h.Blocks == nil {
+					continue
+				}
+				kind, si, ai := c01BalanceHelper(p, h, bal)
+				if kind == "" || si >= len(c.Call.Args) || ai >= len(c.Call.Args) {
+					continue
+				}
+				ops = append(ops, balOp{c, kind, c.Call.Args[si], c.Call.Args[ai], "helper " + h.Name()})
+			}
+		}
+	}
+	var m, a *ssa.Call
+	var mObj, aObj ssa.Value
+	nDeb, nCred := 0, 0
+	for _, op := range ops {
+		if op.kind == "debit" {
+			nDeb++
+			m, mObj = op.at, op.obj
+		} else {
+			nCred++
+			a, aObj = op.at, op.obj
+		}
+	}
+	if !r.Check(nDeb == 1 && nCred == 1, rule, "transferAmount:one-debit-one-credit", p.Pos(ta.Pos()), fmt.Sprintf("debits=%d credits=%d (checked MinusCoin/AddCoin on a state's Balance, inline or in a helper)", nDeb, nCred)) {
 		return
 	}
-	m, a := minus[0].Instr.(*ssa.Call), add[0].Instr.(*ssa.Call)
-	r.Check(m.Call.Args[1] == amount && a.Call.Args[1] == amount, rule, "transferAmount:same-amount", p.Pos(m.Pos()),
+	okAmt := true
+	for _, op := range ops {
+		if op.amt != ssa.Value(amount) {
+			okAmt = false
+		}
+	}
+	r.Check(okAmt, rule, "transferAmount:same-amount", p.Pos(m.Pos()),
 		"the debit and the credit must both use the parameter `amount` itself")
-	mObj, mPath := core.BaseObject(m.Call.Args[0])
-	aObj, aPath := core.BaseObject(a.Call.Args[0])
-	r.Check(mPath == ".Balance" && aPath == ".Balance" && mObj != aObj, rule, "transferAmount:operands", p.Pos(m.Pos()),
-		fmt.Sprintf("debit reads %s%s, credit reads %s%s (must be the Balance of two distinct loaded states)", mObj.Name(), mPath, aObj.Name(), aPath))
-	// the two Balance stores take exactly these results
-	bal := p.Field(pkgState, "State", "Balance")
-	stores := core.FieldWrites([]*ssa.Function{ta}, bal)
-	okStores := len(stores) == 2
-	for _, s := range stores {
-		c, idx := core.CallOf(s.Val)
-		if s.Kind != "store" || c == nil || idx != 0 || (c != m && c != a) {
+	r.Check(mObj != aObj, rule, "transferAmount:operands", p.Pos(m.Pos()),
+		fmt.Sprintf("debit on %s, credit on %s (must be two distinct loaded states)", describe(mObj), describe(aObj)))
+	okStores := true
+	for _, st := range stores {
+		if !usedStore[st.Instr] {
 			okStores = false
 		}
 	}
-	r.Check(okStores, rule, "transferAmount:stores", p.Pos(ta.Pos()), fmt.Sprintf("%d Balance stores; each must store the checked result of MinusCoin/AddCoin", len(stores)))
-	// errors of both calls are returned: on the err!=nil edge there is a failure return
+	r.Check(okStores, rule, "transferAmount:stores", p.Pos(ta.Pos()), fmt.Sprintf("%d Balance stores in transferAmount; each stores the checked result of its MinusCoin/AddCoin", len(stores)))
+	// errors of both operations are returned: on the err!=nil edge there is a failure return
 	for _, c := range []*ssa.Call{m, a} {
 		r.Check(core.ErrLeadsToFailure(c), rule, "transferAmount:err-returned:"+core.MethodName(c.Common()), p.Pos(c.Pos()), "arithmetic error must lead to a failure exit")
 	}
@@ -384,6 +468,17 @@ func c01Transfer(r *core.Report, p *core.Prog, ta *ssa.Function, rule string) {
 		if yo == mObj && yp == ".Balance" && b.X == amount && ((b.Op.String() == ">" && !f.Taken) || (b.Op.String() == "<=" && f.Taken)) {
 			haveSuff = true
 		}
+	}
+	if !haveNeq {
+		haveNeq = c01GuardedByHelper(ta, firstStore, func(g c01Guard, args []ssa.Value) bool {
+			for _, pr := range g.neq {
+				x, y := core.AccessPath(args[pr[0]]), core.AccessPath(args[pr[1]])
+				if (x == "fromClient" && y == "toClient") || (x == "toClient" && y == "fromClient") {
+					return true
+				}
+			}
+			return false
+		})
 	}
 	r.Check(haveNeq, rule, "transferAmount:from!=to", p.Pos(m.Pos()), "self-transfer must be rejected before any balance is touched (a self transfer would credit a stale copy)")
 	r.Check(haveSuff, rule, "transferAmount:sufficient", p.Pos(m.Pos()), "debit must be dominated by the fall-through of `balance < amount → reject` on the debited state")
@@ -675,10 +770,169 @@ func c01CanonicalIDs(r *core.Report, p *core.Prog, ta *ssa.Function, rule string
 				}
 			}
 			if !ok {
+				ok = c01GuardedByHelper(ta, rd.Instr, func(g c01Guard, args []ssa.Value) bool {
+					for _, ci := range g.canon {
+						if ci < len(args) && args[ci] == ssa.Value(id) {
+							return true
+						}
+					}
+					return false
+				})
+			}
+			if !ok {
 				okAll = false
 				why = "state access at " + p.Pos(rd.Pos()) + " is not dominated by " + id.Name() + " == strings.ToLower(" + id.Name() + ")"
 			}
 		}
 		r.Check(okAll, rule, "transferAmount:canonical-id:"+id.Name(), p.Pos(ta.Pos()), "the trie folds hex case (FullNode.index), so only canonical lower-case ids may reach the account state; "+why)
 	}
+}
+
+// c01BalanceHelper: h does exactly `x, err := MinusCoin|AddCoin(s.Balance, a); if err != nil { return err }; s.Balance = x`
+// on two of its parameters: returns the kind and the parameter positions.
+func c01BalanceHelper(p *core.Prog, h *ssa.Function, bal *types.Var) (kind string, si, ai int) {
+	var op *ssa.Call
+	n := 0
+	for _, b := range h.Blocks {
+		for _, in := range b.Instrs {
+			c, ok := in.(*ssa.Call)
+			if !ok {
+				continue
+			}
+			switch core.CalleeName(c.Common()) {
+			case pkgCurr + ".MinusCoin":
+				op, kind = c, "debit"
+				n++
+			case pkgCurr + ".AddCoin":
+				op, kind = c, "credit"
+				n++
+			}
+		}
+	}
+	if n != 1 {
+		return "", 0, 0
+	}
+	obj, path := core.BaseObject(op.Call.Args[0])
+	sp, ap := core.ParamOf(obj), core.ParamOf(op.Call.Args[1])
+	if path != ".Balance" || sp == nil || ap == nil || op.Call.Args[1] != ssa.Value(ap) {
+		return "", 0, 0
+	}
+	ws := core.FieldWrites([]*ssa.Function{h}, bal)
+	if len(ws) != 1 || ws[0].Kind != "store" {
+		return "", 0, 0
+	}
+	cc, idx := core.CallOf(ws[0].Val)
+	wo, _ := core.BaseObject(ws[0].Addr)
+	if cc != op || idx != 0 || wo != obj || !core.ErrLeadsToFailure(op) {
+		return "", 0, 0
+	}
+	if ok, _ := MustPass(p, h, ws[0].Instr); !ok {
+		return "", 0, 0
+	}
+	si, ai = -1, -1
+	for i, prm := range h.Params {
+		if prm == sp {
+			si = i
+		}
+		if prm == ap {
+			ai = i
+		}
+	}
+	if si < 0 || ai < 0 {
+		return "", 0, 0
+	}
+	return kind, si, ai
+}
+
+// c01Guard: what a guard helper guarantees about its string parameters when it returns nil.
+type c01Guard struct {
+	neq   [][2]int // parameters known different
+	canon []int    // parameters known equal to their strings.ToLower
+}
+
+func c01GuardSummary(h *ssa.Function) c01Guard {
+	var g c01Guard
+	exits := core.SuccessExits(h)
+	if len(exits) == 0 {
+		return g
+	}
+	idxOf := func(v ssa.Value) int {
+		for i, prm := range h.Params {
+			if v == ssa.Value(prm) {
+				return i
+			}
+		}
+		return -1
+	}
+	first := true
+	for _, ret := range exits {
+		var neq [][2]int
+		var canon []int
+		for _, f := range CmpFacts(ret.Block()) {
+			x, y := idxOf(f.X), idxOf(f.Y)
+			if f.Op == token.NEQ && x >= 0 && y >= 0 {
+				neq = append(neq, [2]int{x, y})
+			}
+			if f.Op == token.EQL {
+				for _, pr := range [][2]ssa.Value{{f.X, f.Y}, {f.Y, f.X}} {
+					pi := idxOf(pr[0])
+					c, ok := pr[1].(*ssa.Call)
+					if pi >= 0 && ok && core.CalleeName(c.Common()) == "strings.ToLower" && c.Call.Args[0] == pr[0] {
+						canon = append(canon, pi)
+					}
+				}
+			}
+		}
+		if first {
+			g.neq, g.canon, first = neq, canon, false
+			continue
+		}
+		// intersect
+		var n2 [][2]int
+		for _, a := range g.neq {
+			for _, b := range neq {
+				if a == b || (a[0] == b[1] && a[1] == b[0]) {
+					n2 = append(n2, a)
+				}
+			}
+		}
+		var c2 []int
+		for _, a := range g.canon {
+			for _, b := range canon {
+				if a == b {
+					c2 = append(c2, a)
+				}
+			}
+		}
+		g.neq, g.canon = n2, c2
+	}
+	return g
+}
+
+// c01GuardedByHelper: some error-checked call to a package helper dominates `at` and its
+// summary satisfies pred for the actual arguments.
+func c01GuardedByHelper(fn *ssa.Function, at ssa.Instruction, pred func(g c01Guard, args []ssa.Value) bool) bool {
+	for _, b := range fn.Blocks {
+		for _, in := range b.Instrs {
+			c, ok := in.(*ssa.Call)
+			if !ok {
+				continue
+			}
+			h := c.Call.StaticCallee()
+			if h == nil || h.Pkg == nil || h.Pkg != fn.Pkg || h.Blocks == nil || !core.ErrLeadsToFailure(c) {
+				continue
+			}
+			if !(c.Block().Dominates(at.Block()) && (c.Block() != at.Block() || core.Reaches(c, at))) {
+				continue
+			}
+			// the point must lie on the call's success side
+			if core.KnownNil(core.FactsAt(at.Block()), core.ErrResult(c)) != 1 {
+				continue
+			}
+			if pred(c01GuardSummary(h), c.Call.Args) {
+				return true
+			}
+		}
+	}
+	return false
 }
